@@ -6,6 +6,7 @@ import Driver.GMeshCmd
 import Driver.FormulaCmd
 import Driver.SLCmd
 import Driver.QuadtreeCmd
+import Driver.GQuadtreeCmd
 import Driver.EstimatorCmd
 import Driver.EstimatorGenCmd
 import Driver.ParamCmd
@@ -25,6 +26,7 @@ structure St where
   gmesh : Option Stbem.Mesh.Mesh := none
   sl : SLState := {}
   qt : QtSt := {}
+  gqt : GQtSt := {}
   hmesh : Option Stbem.HalfEdge.HMesh := none
   ip : IpSt := {}
 
@@ -39,6 +41,7 @@ def dispatch (st : St) (line : String) : St × String :=
   | "pb" :: _ => (st, problemsCmd args)
   | "sl" :: _ => let r := slCmd st.sl args; ({ st with sl := r.1 }, r.2)
   | "qt" :: _ => let r := qtCmd st.qt args; ({ st with qt := r.1 }, r.2)
+  | "gqt" :: _ => let r := gqtCmd st.gqt args; ({ st with gqt := r.1 }, r.2)
   | "ee" :: _ => let r := eeCmd st.mesh args; ({ st with mesh := r.1 }, r.2)
   | "gee" :: _ => (st, geeCmd st.mesh args)
   | "param" :: _ => (st, paramCmd args)
